@@ -61,6 +61,8 @@ long c12_transition_min() {
   return m;
 }
 
+static thread_local bool t_fit_history = false;  // the instance of the current operation had fitting switched on earlier
+
 // ---- scope table (DESIGN 5.4) -------------------------------------------------------------------------
 bool class_in_scope(const std::string &prop, const std::string &cls, int mode, bool external, bool after_explicit_offset,
                     int expect_fail, bool via_file, bool fault_context) {
@@ -129,8 +131,7 @@ struct TaskRt {
   bool done = false;
 };
 
-static thread_local int t_cur_ti = 0;
-static thread_local bool t_fit_history = false;  // the instance of the current operation had fitting switched on earlier  // the task the current thread is executing (threads in fine mode)
+static thread_local int t_cur_ti = 0;  // the task the current thread is executing (threads in fine mode)
 
 struct Run {
   const Plan *p = nullptr;
